@@ -19,6 +19,12 @@ type Edit struct {
 // Elem is one named group element of a proof (compressed encoding, hex).
 type Elem struct{ Name, Hex string }
 
+// Item is a named byte string (something that must be bound into a transcript).
+type Item struct {
+	Name  string
+	Bytes []byte
+}
+
 type Ops struct {
 	ID   ecc.ID
 	Name string
@@ -45,6 +51,9 @@ type Ops struct {
 
 	G16Elems   func(p any) []Elem
 	PlonkElems func(p any) []Elem
+
+	PlonkBoundItems func(proof, vk any, pub []*big.Int) []Item
+	G16BoundItems   func(proof, vk any, pub []*big.Int) []Item
 
 	// extended per-property entry points are added as separate fields below
 	Ext map[string]any
